@@ -5,9 +5,15 @@
 (* binding only has to put them into a route_rule.data file / a request.               *)
 EXTENDS BasicM, Json, SequencesExt
 
-VARIABLE g
-GInit == g \in Tables
-GNext == UNCHANGED g
+\* the table grows one pair at a time: exhaustive search visits every table with <= MaxRules pairs
+\* once, -simulate walks to random tables without enumerating them all first
+VARIABLES g, fin
+GInit == g = <<>> /\ fin = FALSE
+GNext == /\ ~fin
+         /\ \/ /\ Cardinality(DOMAIN g) < MaxRules
+               /\ \E r \in Pairs \ DOMAIN g : g' = [x \in DOMAIN g \cup {r} |-> <<"C", x>>]
+               /\ fin' = FALSE
+            \/ fin' = TRUE /\ UNCHANGED g       \* dedicated print step (see Emit)
 
 RECURSIVE Str(_)
 Str(s) == IF s = <<>> THEN "" ELSE s[1] \o Str(Tail(s))
@@ -18,5 +24,5 @@ Case(R) == LET rs == SetToSeq(DOMAIN R) IN
    probes |-> SetToSeq({[h |-> Str(HostStr(hh)), q |-> Str(ReqPathStr(qq)),
                          e |-> {Idx(rs, c) : c \in BasicExpect(R, hh, qq)}]
                         : hh \in ReqHosts, qq \in ReqPaths})]
-Emit == PrintT(ToJson(Case(g)))
+Emit == fin => PrintT(ToJson(Case(g)))
 =========================================================================
